@@ -1,4 +1,5 @@
 // Instantiation driver (parsed only, never run): remaining sequential containers.
+#include <utility>
 #include "galois/Galois.h"
 #include "galois/TwoLevelIteratorA.h"
 #include <iterator>
@@ -13,6 +14,24 @@
 #include <string>
 
 namespace gsa_driver {
+
+// InsertBag carves its blocks out of raw pages: the first element slot must lie behind the block header for EVERY element
+// size, not only those that divide the header's size. One instantiation per element size 1..40 (the header is 32 bytes).
+template <size_t N>
+struct SizedElem {
+  char bytes[N];
+};
+template <size_t N>
+void bag_of_size() {
+  galois::InsertBag<SizedElem<N>> b;
+  b.push(SizedElem<N>());
+}
+template <size_t... Ns>
+void bags_of_sizes(std::index_sequence<Ns...>) {
+  (bag_of_size<Ns + 1>(), ...);
+}
+void bag_sizes() { bags_of_sizes(std::make_index_sequence<40>()); }
+
 
 struct ElemB {
   int v;
